@@ -81,7 +81,11 @@ REQUIRED_BUCKETS = ["cls:" + c for c in S.CLASSES] + ["pair:self", "pair:deepcop
                               "call", "pickle", "copy", "replace", "alt-entry", "numeric-int", "numeric-np",
                               "identical-getter-values", "route:member-level", "route:single-objects", "route:shuffled",
                               "route:cleanup-only")] + \
-    ["route:identical-getter-values:" + k for k in ("member-level", "single-objects", "shuffled", "add-remove")]
+    ["route:identical-getter-values:" + k for k in ("member-level", "single-objects", "shuffled", "add-remove")] + \
+    ["history:" + k for k in ("layout", "layout-both", "identity-motion", "layout-alias", "layout-alias:values-differ",
+                              "identical-getter-values:layout", "identical-getter-values:layout-both",
+                              "identical-getter-values:identity-motion")] + \
+    ["layout:2d:" + k for k in S.LAYOUTS_2D] + ["layout:1d:" + k for k in S.LAYOUTS_1D]
 WORKERS = {"quick": 4, "thorough": 8}
 
 QUICK_PER_CLASS = 48
@@ -378,14 +382,24 @@ def run_histories(ctx, cls, dx, x, hs=None):
             continue
         sy, sw = S.encode(y, True), S.encode(w, True)
         ctx.tag("history:" + h["hkind"])
+        for t in h.get("tags", ()):
+            ctx.tag(t)
         sub = {"cls": cls, "x": dx, "kind": "history", "h": h, "attr": h.get("attr")}
         ob = observe(w, y)
         same = sy == sw
+        # pairs built to differ in the entries of one array (same bytes in memory, other points): unequal is demanded
+        # whenever the public getters do show different values
+        differs = bool(h.get("differs")) and not same and _none_is_empty(sy) != _none_is_empty(sw)
+        if differs:
+            ctx.tag("history:" + h["hkind"] + ":values-differ")
         if same:
             ctx.tag("history:identical-getter-values")
+            if h["hkind"] in ("layout", "layout-both", "identity-motion"):
+                ctx.tag("history:identical-getter-values:" + h["hkind"])
             if h["hkind"].startswith("route:"):
                 ctx.tag("route:identical-getter-values:" + ("add-remove" if "add-remove" in h["hkind"] else h["hkind"][6:]))
-        oracle_pair(ctx, cls, sub, None, w, y, ob, "history/" + h["hkind"], h.get("attr"), "equal" if same else None, case=sub)
+        oracle_pair(ctx, cls, sub, None, w, y, ob, "history/" + h["hkind"], h.get("attr"),
+                    "equal" if same else ("unequal" if differs else None), case=sub)
         pairs.append((ew[1], ey[1]))
         meta.append((sub, ob))
         if same and part != "x" and "desc" in part and h["hkind"] in ("set-change", "inplace-change", "nested-set") \
